@@ -24,7 +24,7 @@ CLAIMED = {
  "C17": ("tlc-trace", "TLC comparison of FIRST / FOLLOW / nullable / path / cost queries with declarative least fixed points; rule_min_costs transcribed to characterise non-termination", "5 C17"),
  "C18": ("tlc-ctbuild", "TLC bounded model of CTBuild.tla (all histories to a depth) + trace validation of build histories run on the real builders, one process per build, against clean builds", "5 C18"),
  "C19": ("tlc-nlc", "TLC bounded model of NewlineCache.tla + Diagnostics.tla (all texts x chunkings x queries x spans; the rendering loop as coded = the rendering defined on the line structure) + trace validation of the real cache, lexers and diagnostics formatter (every span rendered) over the same exhaustive family and random texts", "5 C19"),
- "C20": ("tlc-width", "TLC bounded model of the width guards (Width.tla) + trace validation of u8/u16/u32 builds of grammars sitting in the 2^8 / 2^16 windows; the guard lemma for all natural counts by Apalache (WidthApa.tla, length 0)", "5 C20"),
+ "C20": ("tlc-width", "TLC bounded model of the width guards (Width.tla) + trace validation of u8/u16/u32 builds of grammars sitting in the 2^8 / 2^16 windows; the guard lemma for all natural counts by Apalache (WidthApa.tla, length 0) and as a TLAPS theorem (WidthProof.tla)", "5 C20"),
 }
 ENGINES = [
  dict(name="tlc-trace", path="/verif/spec/TraceLR.tla", kind_free_text="TLA+ modules Grammar, Analyses, LR1, Pager, StateTable, LRParse, CPCTPlus, CanonTable + trace specification TraceLR and bounded models MC_Pager, MC_CPCT, MC_Recover, checked with TLC against NDJSON recorded by harness/vh (lr) from the real crates"),
